@@ -327,8 +327,9 @@ def common(ts):
 
 
 class Gen:
-    def __init__(self, rng, max_nodes=10, max_events=20, faults=False, allow=None, md_prob=0.6, feedback=0.2):
+    def __init__(self, rng, max_nodes=10, max_events=20, faults=False, allow=None, md_prob=0.6, feedback=0.2, narrow=False):
         self.r = rng
+        self.narrow = narrow
         self.feedback = feedback
         self.max_nodes = max_nodes
         self.max_events = max_events
@@ -351,6 +352,8 @@ class Gen:
     def gen_value(self, t, depth=0):
         r = self.r
         if t[0] == 'int':
+            if self.narrow:
+                return r.choice([0, 1, 2, 3])
             return r.choice([0, 1, 1, 2, 2, 3, 4, 5])
         if t[0] == 'tup':
             k = t[1] if t[1] is not None else r.choice([0, 1, 2, 3])
@@ -523,7 +526,13 @@ class Gen:
             return {"k": "partition", "n": n, "key": key, "ups": [u]}, T_tup(n, t)
         if k == "partition_unique":
             n = self.small()
-            return {"k": "partition_unique", "n": n, "key": self.key(t),
+            key = self.key(t)
+            if self.narrow:
+                # focused mode: partitions of 3-4 distinct keys over a 4-letter alphabet, so that a key is seen again
+                # (replaced / moved) after other keys have arrived and before the partition completes
+                n = r.choice([2, 3, 3, 4])
+                key = r.choice([['KeyId'], ['KeyMod', 4]] if hashable(t) else [['KeyMod', 4], ['KeySum']])
+            return {"k": "partition_unique", "n": n, "key": key,
                     "keep": r.choice(["first", "last"]), "ups": [u]}, T_tup(n, t)
         if k == "sliding_window":
             n = self.small()
